@@ -136,8 +136,7 @@ def run(ctx):
             pass
         case = {'map': e['file'], 'faults': kinds, 'charset': cs, 'k': ['c12', ctx.shard, k], 'text': text if len(text) < 8000 else None}
         n += judge(ctx, text, cs, case, sigs, k_enc)
-        if k == 1:
-            ctx.case(n=0, sample={'map': e['file'], 'faults': kinds, 'reencoded_head': reencode.reencode(text, '!', '|', '>', '\r\n')[:300]})
+        ctx.sample({'map': e['file'], 'faults': kinds, 'text_head': text[:300]})
     ctx.case(n=n, sigs=sorted(sigs))
 
 
